@@ -183,6 +183,12 @@ pub fn templates() -> Vec<G> {
     out.push(G::Then(b(rep(G::Then(b(tr("a", 1)), b(G::Just("b".into()))), None, 0, None, Sink::Vec)), b(rest())));
     out.push(rep(tr("a", 1), None, 0, None, Sink::Foldl(b(tr("b", 2)))));
     out.push(rep(tr("a", 1), None, 0, Some(3), Sink::Foldr(b(tr("b", 2)))));
+    // right folds gather their items before folding: unbounded runs (five and more items), also abandoned ones
+    out.push(rep(tr("a", 1), None, 0, None, Sink::Foldr(b(tr("b", 2)))));
+    out.push(rep(tr("a", 1), None, 0, None, Sink::FoldrWith(b(tr("b", 2)))));
+    out.push(rep(tr("a", 1), None, 0, None, Sink::FoldlWith(b(tr("b", 2)))));
+    out.push(G::Or(b(G::Then(b(rep(tr("a", 1), None, 0, None, Sink::Foldr(b(tr("b", 2))))), b(G::Just("c".into())))), b(rest())));
+    out.push(G::Or(b(G::Then(b(rep(tr("a", 1), None, 1, None, Sink::FoldrWith(b(G::Empty)))), b(G::Just("c".into())))), b(rest())));
     out.push(G::Then(b(G::Recover(b(G::Then(b(tr("a", 1)), b(G::Just("b".into())))), Strat::Via(b(G::To(b(G::Any), 901))))), b(rest())));
     out.push(G::Then(b(G::Recover(b(G::Then(b(tr("a", 1)), b(G::Just("b".into())))), Strat::SkipRetry { skip: b(G::Any), until: b(G::End) })), b(rest())));
     out.push(G::Then(b(G::Validate(b(tr("a", 1)), 3, 1)), b(G::Then(b(G::Filter(b(tr("b", 2)), Pred::Never)), b(rest())))));
